@@ -46,8 +46,12 @@ class C10(CheckBase):
             p['fhcrc'] = True
         if rng.chance(0.3):
             p['mtime'] = rng.below(1 << 32)
-        if rng.chance(0.15):
+        if rng.chance(0.2):
             p['splits'] = sorted(rng.randint(1, 999) for _ in range(rng.randint(1, 2)))
+        if rng.chance(0.3):
+            # steer the end of the first member (or of the whole stream) onto / next to a multiple of the
+            # tool's 512-byte input buffer
+            p['align'] = rng.choice([0, 0, 0, 1, -1, 511, 8, -8])
         return p
 
     def gen_case(self, rng, tier, index):
@@ -135,6 +139,8 @@ class C10(CheckBase):
                 out.probe('compressed-length-multiple-of-512')
             if case['gz'].get('splits'):
                 out.probe('multi-member-stream')
+                if case['gz'].get('align') == 0:
+                    out.probe('member-ends-on-512-byte-boundary')
             self.judge_same(out, case, atom, ref, r, 'C10.a', '%s compressed (%s)%s' % (plain, self.gzdesc(case), ' with read chunking' if fault == 'rchunk' else ''),
                             {'container': cont, 'fault': fault, 'members': 'multi' if case['gz'].get('splits') else 'single'})
             return out
